@@ -5,6 +5,7 @@ import (
 	"fmt"
 	"sync"
 
+	schema "github.com/jsightapi/jsight-schema-core"
 	"github.com/jsightapi/jsight-schema-core/bytes"
 	"github.com/jsightapi/jsight-schema-core/notations/regex"
 
@@ -91,6 +92,19 @@ func ProbeRegexExample(regexStr bytes.Bytes) (err error) {
 	}()
 	_, _ = regex.New("", regexStr).Example()
 	return nil
+}
+
+// AddUserType gives the schema a user type. For a regex type the library takes
+// a new example from the generator of the type every time, and the generator
+// panics when it gets into a part of the expression that matches nothing - which
+// need not happen with the first example (see ProbeRegexExample).
+func AddUserType(s schema.Schema, name string, t schema.Schema) (err error) {
+	defer func() {
+		if r := recover(); r != nil {
+			err = fmt.Errorf("an example cannot be generated for the regular expression of the type %q (%v)", name, r)
+		}
+	}()
+	return s.AddType(name, t)
 }
 
 func NewExchangeRegexSchema(regexStr bytes.Bytes) (*ExchangeRegexSchema, error) {
